@@ -13,10 +13,10 @@ ASSUMPTIONS = ["that two occurrences of one k-mer see the same minimizer follows
 
 def run(F, rep):
     rep.engines.update(["E2-DT", "affine", "E1"])
-    dt_msp.score_closure_tables(F, rep, "C08.1")
-    dt_msp.piece_closure_table(F, rep, "C08.2")
-    dt_msp.capacity_guard(F, rep, "C08.2")
-    dt_msp.slice_bounds_tables(F, rep, "C08.3")
-    dt_msp.from_slice_table(F, rep, "C08.5")
-    dt_msp.minpos_order_tables(F, rep, "C08.6")
-    dt_msp.scan_tables(F, rep, "C08.6")
+    rep.run(dt_msp.score_closure_tables, F, rep, "C08.1")
+    rep.run(dt_msp.piece_closure_table, F, rep, "C08.2")
+    rep.run(dt_msp.capacity_guard, F, rep, "C08.2")
+    rep.run(dt_msp.slice_bounds_tables, F, rep, "C08.3")
+    rep.run(dt_msp.from_slice_table, F, rep, "C08.5")
+    rep.run(dt_msp.minpos_order_tables, F, rep, "C08.6")
+    rep.run(dt_msp.scan_tables, F, rep, "C08.6")
